@@ -163,7 +163,7 @@ def main():
     for i, t in enumerate(trans):
         calls = base_calls(t["base"]) + [a for a in t["pre"]] + [t["act"]]
         scen.append({"kind": "lattice", "id": i, "calls": calls, "log": "last"})
-    recs, rc, err = pv.run_driver(exe, scen, timeout=1200)
+    recs, crashed = pv.run_driver_resilient(exe, scen, timeout=1200)
     byid = {r["id"]: r for r in recs if r.get("e") == "Call"}
     nbad = 0
     for i, t in enumerate(trans):
@@ -180,8 +180,6 @@ def main():
             nbad += 1
             c.violation("%s: %s" % (json.dumps(t["act"]), why),
                         {"kind": "lattice", "calls": scen[i]["calls"], "expect": t, "observed": obs}, cls=cls)
-            if obs is None:
-                break   # the driver died: later scenarios were not executed
     c.traces += len(trans)
     c.sample({"calls": scen[len(scen) // 2]["calls"], "expect_res": trans[len(trans) // 2]["res"]})
 
@@ -189,11 +187,10 @@ def main():
     nh = 400 if not thorough else 4000
     hl = 25
     hs = [{"kind": "lattice", "id": "h%d" % i, "calls": random_history(rng, hl)} for i in range(nh)]
-    recs, rc, err = pv.run_driver(exe, hs, timeout=1200)
-    # executions that did not finish (library crashed) : everything after is missing
+    recs, crashed = pv.run_driver_resilient(exe, hs, timeout=1200)
     ended = {r["id"] for r in recs if r.get("e") == "End"}
     c.sample({"history": hs[0]["calls"][:8]})
-    lines = recs
+    lines = [r for r in recs if r.get("e") in ("Begin", "Call", "End") and r.get("id") in ended]
     pos = 0
     guard = 0
     while pos < len(lines) and guard < 50:
@@ -222,7 +219,6 @@ def main():
     for h in hs:
         if h["id"] not in ended:
             c.violation("library died during history %s" % h["id"], {"kind": "lattice", "calls": h["calls"]}, cls="crash")
-            break
     for r in recs:
         if r.get("e") == "Call":
             c.evaluations += 1
@@ -242,8 +238,11 @@ def main():
 def replay(path):
     obj = json.load(open(path))["replay"]
     exe = pv.harness("plain", "pv_driver")
-    recs, rc, err = pv.run_driver(exe, [{"kind": "lattice", "id": "replay", "calls": obj["calls"]}])
-    v = pv.validate_trace("LatticeTrace", "LatticeTrace", recs, "C20/replay")
+    recs, crashed = pv.run_driver_resilient(exe, [{"kind": "lattice", "id": "replay", "calls": obj["calls"]}])
+    if crashed:
+        print("library crashed:", crashed)
+        return 1
+    v = pv.validate_trace("LatticeTrace", "LatticeTrace", [r for r in recs if r.get("e") in ("Begin", "Call", "End")], "C20/replay")
     for r in recs:
         print(json.dumps(r)[:400])
     print("accepted by specification:", v.accepted, "matched", v.matched, "of", v.total)
